@@ -223,6 +223,7 @@ func Enum(c explore.Chooser) *prog.Program {
 	if second != "absent" {
 		t2 = enumType(s, "T2", "Mode", "Md", "string")
 	}
+	reexport := s.Pick("root-const-of-sub-enum", "no", "yes")
 	reach := s.Pick("reach", "field", "slice-elem", "map-key", "map-value", "named-slice", "top-level-only")
 
 	var a, bfile, sub strings.Builder
@@ -265,6 +266,10 @@ func Enum(c explore.Chooser) *prog.Program {
 		t2ref = "twin.Mode"
 	}
 
+	if reexport == "yes" && loc == "sub-package" && strings.Contains(t1, "LvB") {
+		// the importing package declares a typed constant of the enum of the sub package
+		a.WriteString("const DefaultLevel = sub.LvB\n\n")
+	}
 	var fields []string
 	addRef := func(fname, ref string) {
 		switch reach {
